@@ -92,6 +92,6 @@ func TestRacePass(t *testing.T) {
 	}
 	out.Samples = []any{"TestRace_MuxBroker: 4x(50 NextId on both brokers, Dispense+call), 6 Accept/Dial pairs on distinct ids in both directions, Close racing with them",
 		"TestRace_GRPCBroker: same over gRPC with and without multiplexing", "TestRace_Client: Start/Client+Dispense+call/Protocol/ReattachConfig/Exited/ID doubled, then NegotiatedVersion, then 2 Kills + accessors (+CleanupClients) against a real plugin process",
-		"TestRace_ClientDeadMux: broker multiplexing agreed, the plugin's socket refuses the first connection; 4 goroutines retry Client() 25 times each and read accessors, then Client()+Kill twice"}
+		"TestRace_ClientDeadMux: the plugin's socket refuses the first connection (gRPC with multiplexing agreed, gRPC without, net/rpc); 4 goroutines retry Client() 25 times each, use any protocol client handed out without an error, read accessors; then Client()+Kill twice"}
 	emit(out)
 }
